@@ -261,7 +261,8 @@ class OrthogonalNpcLinearOperator(NpcLinearOperatorWrapper):
         labels = matrix.get_leg_labels()
         proj = npc.eye_like(matrix, 0)
         for o in self.ortho_vecs:
-            o = o.combine_legs(o.get_leg_labels())
+            if o.rank > 1:
+                o = o.combine_legs(o.get_leg_labels())
             proj -= npc.outer(o, o.conj())
         matrix = npc.tensordot(matrix, proj, len(labels) // 2)
         matrix = npc.tensordot(proj, matrix, len(labels) // 2)
